@@ -548,6 +548,7 @@ Hypothesis Hobject : forall es, Forall Pent es -> P (QObject es).
 Hypothesis Hbindp : forall s p b, P s -> P b -> P (QBindP s p b).
 Hypothesis Hindexq : forall t q, P t -> P q -> P (QIndexQ t q).
 Hypothesis Hslice : forall t a b, P t -> P a -> P b -> P (QSlice t a b).
+Hypothesis Hcall1 : forall f a, P a -> P (QCall1 f a).
 
 Fixpoint query_ind' (q : query) : P q :=
   match q with
@@ -579,6 +580,7 @@ Fixpoint query_ind' (q : query) : P q :=
   | QBindP s p b => Hbindp s p b (query_ind' s) (query_ind' b)
   | QIndexQ t q => Hindexq t q (query_ind' t) (query_ind' q)
   | QSlice t a b => Hslice t a b (query_ind' t) (query_ind' a) (query_ind' b)
+  | QCall1 f a => Hcall1 f a (query_ind' a)
   | QObject es => Hobject es
       ((fix go (l : list ((list BinNums.N + query) * query)) : Forall Pent l :=
           match l with
@@ -601,11 +603,17 @@ Ltac dcomp :=
       let E := fresh "El" in destruct (lookup_cv x l) eqn:E; [|discriminate H]
   end.
 
+(* the pattern of reduce / foreach: name the code of the pattern and decide the fragment test *)
+Ltac dpat Hc :=
+  match type of Hc with context [pcomp ?p ?c ?n] =>
+    let E := fresh "Ep" in destruct (pcomp p c n) as [[? ?] ?] eqn:E;
+    match type of Hc with context [pat_ok ?p' && names_nodup ?b] => destruct (pat_ok p' && names_nodup b); [|discriminate Hc] end
+  end.
 
 Ltac qind q :=
   induction q as [ | c | a b IHa IHb | a b IHa IHb | | t IHt | t k IHt | c a b IHc IHa IHb | a b IHa IHb
                  | a h IHa IHh | q IHq | s x i u IHs IHi IHu | s x i u e IHs IHi IHu IHe | l b IHb | l
-                 | s x b IHs IHb | x | f | o a b IHa IHb | f ps body rest IHbody IHrest | f args IHargs | es IHes | s p b IHs IHb | t q IHt IHq | t a b IHt IHa IHb ] using query_ind'.
+                 | s x b IHs IHb | x | f | o a b IHa IHb | f ps body rest IHbody IHrest | f args IHargs | es IHes | s p b IHs IHb | t q IHt IHq | t a b IHt IHa IHb | f a IHa ] using query_ind'.
 
 Lemma comp_args_mono : forall (C : query -> nat -> nat -> res) l p sn cas p' s2, comp_args C l p sn = Some (cas, p', s2) ->
   Forall (fun a => forall s p0 cb nvc s1, C a s p0 = Some (cb, nvc, s1) -> s <= s1) l -> sn <= s2.
@@ -749,6 +757,19 @@ Proof.
   cbv iota beta in Hc. inversion Hc; subst. exists ca, na, s1, cb, nb, s2, ct, nt0. cbv zeta. auto 8.
 Qed.
 
+(* a native with one argument *)
+Lemma comp_call1_inv : forall f a ce tp cur pc nv sn cq nv' sn', compg tco (QCall1 f a) ce tp cur pc nv sn = Some (cq, nv', sn') ->
+  cur < sn /\ ce_lt ce sn = true /\ exists cb nb,
+    compg tco a ce None sn (S pc + 2) 0 (S sn) = Some (cb, nb, sn') /\
+    cq = Istore (cur, nv) :: arg_code (cur, nv) (S pc) sn cb nb ++ [Iload (cur, nv); Icall (NF1 f)] /\ nv' = S nv.
+Proof.
+  intros f a ce tp cur pc nv sn cq nv' sn' Hc. cbn -[Nat.add Nat.ltb Nat.eqb ce_lt arg_code] in Hc.
+  destruct (Nat.ltb_spec cur sn) as [Hlt|]; [|discriminate]. split; [exact Hlt|].
+  destruct (ce_lt ce sn) eqn:Hce; [|discriminate]. split; [reflexivity|]. cbn [andb] in Hc.
+  destruct (compg tco a ce None sn (S pc + 2) 0 (S sn)) as [[[cb nb] s1]|] eqn:Eb; [|discriminate].
+  inversion Hc; subst. exists cb, nb. auto.
+Qed.
+
 (* compileBind with a destructuring pattern *)
 Lemma comp_bindp_inv : forall qs p qb ce tp cur pc nv sn cq nv' sn', compg tco (QBindP qs p qb) ce tp cur pc nv sn = Some (cq, nv', sn') ->
   is_pvar p = false /\ pat_ok p = true /\
@@ -766,6 +787,53 @@ Proof.
   match type of Hc with context [compg tco qb ?ce0 ?t0 ?c0 ?p0 ?n0 ?s0] =>
     destruct (compg tco qb ce0 t0 c0 p0 n0 s0) as [[[cb n3] s2]|] eqn:Eb; [|discriminate] end.
   inversion Hc; subst. exists cs, n1, s1, cp, bs, n2, cb. auto 8.
+Qed.
+
+(* compileReduce / compileForeach *)
+Lemma comp_reduce_inv : forall qs p qi qu ce tp cur pc nv sn cq nv' sn',
+  compg tco (QReduce qs p qi qu) ce tp cur pc nv sn = Some (cq, nv', sn') ->
+  pat_ok p = true /\ exists ci n1 s1 cs n2 s2 cp bs n2' cu,
+    compg tco qi ce None cur (S pc) (S nv) sn = Some (ci, n1, s1) /\
+    compg tco qs ce None cur (pc + 1 + length ci + 2) n1 s1 = Some (cs, n2, s2) /\
+    pcomp p cur n2 = (cp, bs, n2') /\ names_nodup bs = true /\
+    compg tco qu (add_vars ce bs) None cur (pc + 1 + length ci + 2 + length cs + length cp + 1) n2' s2 = Some (cu, nv', sn') /\
+    cq = Idup :: ci ++ Istore (cur, nv) :: Ifork (pc + 1 + length ci + 2 + length cs + length cp + 1 + length cu + 2) :: cs ++
+           cp ++ Iload (cur, nv) :: cu ++ [Istore (cur, nv); Ibacktrack; Ipop; Iload (cur, nv)].
+Proof.
+  intros qs p qi qu ce tp cur pc nv sn cq nv' sn' Hc. cbn [compg] in Hc.
+  destruct (compg tco qi ce None cur (S pc) (S nv) sn) as [[[ci n1] s1]|] eqn:Ei; [|discriminate].
+  destruct (compg tco qs ce None cur (pc + 1 + length ci + 2) n1 s1) as [[[cs n2] s2]|] eqn:Es; [|discriminate].
+  destruct (pcomp p cur n2) as [[cp bs] n2'] eqn:Ep.
+  destruct (pat_ok p); [|discriminate]. destruct (names_nodup bs) eqn:En; [|discriminate]. cbn [andb] in Hc.
+  match type of Hc with context [compg tco qu ?ce0 ?t0 ?c0 ?p0 ?n0 ?s0] =>
+    destruct (compg tco qu ce0 t0 c0 p0 n0 s0) as [[[cu n3] s3]|] eqn:Eu; [|discriminate] end.
+  inversion Hc; subst. split; [reflexivity|]. exists ci, n1, s1, cs, n2, s2, cp, bs, n2', cu. auto 8.
+Qed.
+Lemma comp_foreach_inv : forall qs p qi qu ext ce tp cur pc nv sn cq nv' sn',
+  compg tco (QForeach qs p qi qu ext) ce tp cur pc nv sn = Some (cq, nv', sn') ->
+  pat_ok p = true /\ exists ci n1 s1 cs n2 s2 cp bs n2' cu n3 s3 cx,
+    compg tco qi ce None cur (S pc) (S nv) sn = Some (ci, n1, s1) /\
+    compg tco qs ce None cur (pc + 1 + length ci + 1) n1 s1 = Some (cs, n2, s2) /\
+    pcomp p cur n2 = (cp, bs, n2') /\ names_nodup bs = true /\
+    compg tco qu (add_vars ce bs) None cur (pc + 1 + length ci + 1 + length cs + length cp + 1) n2' s2 = Some (cu, n3, s3) /\
+    match ext with
+    | Some e => compg tco e (add_vars ce bs) (tl_fb tp) cur (pc + 1 + length ci + 1 + length cs + length cp + 1 + length cu + 2) n3 s3 = Some (cx, nv', sn')
+    | None => cx = [] /\ nv' = n3 /\ sn' = s3
+    end /\
+    cq = Idup :: ci ++ Istore (cur, nv) :: cs ++ cp ++ Iload (cur, nv) :: cu ++ Idup :: Istore (cur, nv) :: cx.
+Proof.
+  intros qs p qi qu ext ce tp cur pc nv sn cq nv' sn' Hc. cbn [compg] in Hc.
+  destruct (compg tco qi ce None cur (S pc) (S nv) sn) as [[[ci n1] s1]|] eqn:Ei; [|discriminate].
+  destruct (compg tco qs ce None cur (pc + 1 + length ci + 1) n1 s1) as [[[cs n2] s2]|] eqn:Es; [|discriminate].
+  destruct (pcomp p cur n2) as [[cp bs] n2'] eqn:Ep.
+  destruct (pat_ok p); [|discriminate]. destruct (names_nodup bs) eqn:En; [|discriminate]. cbn [andb] in Hc.
+  match type of Hc with context [compg tco qu ?ce0 ?t0 ?c0 ?p0 ?n0 ?s0] =>
+    destruct (compg tco qu ce0 t0 c0 p0 n0 s0) as [[[cu n3] s3]|] eqn:Eu; [|discriminate] end.
+  split; [reflexivity|]. destruct ext as [e|].
+  - match type of Hc with context [compg tco e ?ce0 ?t0 ?c0 ?p0 ?n0 ?s0] =>
+      destruct (compg tco e ce0 t0 c0 p0 n0 s0) as [[[cx n4] s4]|] eqn:Ex; [|discriminate] end.
+    inversion Hc; subst. exists ci, n1, s1, cs, n2, s2, cp, bs, n2', cu, n3, s3, cx. auto 10.
+  - inversion Hc; subst. exists ci, n1, s1, cs, n2, s2, cp, bs, n2', cu, nv', sn', []. auto 10.
 Qed.
 
 (* compileObject *)
@@ -794,7 +862,9 @@ Proof.
   - (* try *) destruct h as [h|]; simpl in *; dcomp; inversion Hc; subst; clear Hc.
     + apply IHh in Ec0. lia. + lia.
   - (* array *) destruct (array_fold q); inversion Hc; subst; lia.
-  - (* foreach *) destruct e as [e|]; simpl in *; dcomp; inversion Hc; subst; clear Hc.
+  - (* reduce *) dpat Hc. dcomp. apply IHu in Ec1. apply pcomp_nvars in Ep. inversion Hc; subst; lia.
+  - (* foreach *) dpat Hc. dcomp. apply IHu in Ec1. apply pcomp_nvars in Ep.
+    destruct e as [e|]; simpl in *; dcomp; inversion Hc; subst; clear Hc.
     + apply IHe in Ec2. lia. + lia.
   - (* binop *) destruct (Nat.ltb cur sn && ce_lt ce sn); [|discriminate].
     match type of Hc with context [compg tco b ce ?t ?c ?p ?n ?s] =>
@@ -824,6 +894,8 @@ Proof.
   - (* slice *) change (compg tco (QSlice t a b) ce tp cur pc nv sn = Some (cq, nv', sn')) in Hc.
     destruct (comp_slice_inv _ _ _ _ _ _ _ _ _ _ _ _ Hc) as (_ & _ & _ & ca & na & s1 & cb & nb & s2 & ct & nt0 & Ea & Eb & Et & _ & ->).
     apply IHa in Ea. apply IHb in Eb. apply IHt in Et. lia.
+  - (* call1 *) change (compg tco (QCall1 f a) ce tp cur pc nv sn = Some (cq, nv', sn')) in Hc.
+    destruct (comp_call1_inv _ _ _ _ _ _ _ _ _ _ _ Hc) as (_ & _ & cb & nb & Eb & _ & ->). apply IHa in Eb. lia.
 Qed.
 
 (* the compiler does not look at the ghost field of the environment *)
@@ -841,7 +913,7 @@ Ltac cg1 ce ce' :=
       lazymatch c with context [ce'] => fail | context [ce] => idtac end;
       let f := (eval pattern ce in c) in
       match f with ?F _ => let c' := (eval cbv beta in (F ce')) in
-         rewrite (IH c c' ltac:(simpl; congruence) ltac:(simpl; congruence) t a1 a2 a3 a4) end
+         rewrite (IH c c' ltac:(rewrite ?add_vars_env; simpl; congruence) ltac:(rewrite ?add_vars_lbls; simpl; congruence) t a1 a2 a3 a4) end
   end.
 
 Ltac cg ce ce' :=
@@ -850,6 +922,7 @@ Ltac cg ce ce' :=
     | cg1 ce ce'
     | match goal with
       | |- (if ?g then _ else _) = (if ?g then _ else _) => destruct g; [|reflexivity]
+      | |- context [pcomp ?p ?c ?n] => destruct (pcomp p c n) as [[? ?] ?]
       | |- context [compg tco ?s ?c ?t ?a1 ?a2 ?a3 ?a4] => destruct (compg tco s c t a1 a2 a3 a4) as [[[? ?] ?]|]; cbv iota beta
       end ].
 
@@ -889,6 +962,7 @@ Proof.
     + rewrite !add_vars_lbls. exact Hl.
   - (* indexq *) cg ce ce'.
   - (* slice *) cg ce ce'.
+  - (* call1 *) cg ce ce'.
 Qed.
 
 Lemma lookup_cf_cp : forall l f n y, lookup_cf f n l = Some (CP y) -> n = 0.
@@ -917,7 +991,10 @@ Proof.
     match type of Hc with context [compg tco h ?ce0 ?tp ?c ?p ?n1 ?s] =>
       destruct (compg tco h ce0 tp c p n1 s) as [[[? ?] ?]|] eqn:Eh; [|discriminate Hc] end.
     apply IHh in Eh. rewrite Eh. exact Hc.
-  - (* foreach *) destruct e as [e|]; simpl in *; [|exact Hc].
+  - (* foreach *) dpat Hc.
+    match type of Hc with context [compg tco u ?ce0 ?tp ?c ?p ?n1 ?s] =>
+      destruct (compg tco u ce0 tp c p n1 s) as [[[? ?] ?]|] eqn:Eu; [|discriminate Hc] end.
+    destruct e as [e|]; simpl in *; [|exact Hc].
     match type of Hc with context [compg tco e ?ce0 ?tp ?c ?p ?n1 ?s] =>
       destruct (compg tco e ce0 tp c p n1 s) as [[[? ?] ?]|] eqn:Ee; [|discriminate Hc]; apply IHe in Ee; rewrite Ee end. exact Hc.
   - (* def *) destruct (Nat.ltb cur sn && ce_lt ce sn); [|discriminate Hc].
@@ -964,7 +1041,9 @@ Proof.
   - (* try *) destruct h as [h|]; simpl in *; dcomp; inversion Hc; subst; clear Hc.
     + apply IHh in Ec0. lia. + lia.
   - (* array *) destruct (array_fold q); inversion Hc; subst; simpl; lia.
-  - (* foreach *) destruct e as [e|]; simpl in *; dcomp; inversion Hc; subst; clear Hc.
+  - (* reduce *) dpat Hc. dcomp. apply IHu in Ec1. apply pcomp_nvars in Ep. inversion Hc; subst. cbn [nvars]. lia.
+  - (* foreach *) dpat Hc. dcomp. apply IHu in Ec1. apply pcomp_nvars in Ep.
+    destruct e as [e|]; cbn [nvars] in *; dcomp; inversion Hc; subst; clear Hc.
     + apply IHe in Ec2. lia. + lia.
   - (* binop *) destruct (Nat.ltb cur sn && ce_lt ce sn); [|discriminate].
     match type of Hc with context [compg tco b ce ?t ?c ?p ?n ?s] =>
@@ -990,6 +1069,8 @@ Proof.
     destruct (comp_indexq_inv _ _ _ _ _ _ _ _ _ _ _ Hc) as (_ & _ & _ & cb & nb & s1 & ca & na & Eb & Ea & _ & ->). simpl. lia.
   - (* slice *) change (compg tco (QSlice t a b) ce tp cur pc nv sn = Some (cq, nv', sn')) in Hc.
     destruct (comp_slice_inv _ _ _ _ _ _ _ _ _ _ _ _ Hc) as (_ & _ & _ & ca & na & s1 & cb & nb & s2 & ct & nt0 & Ea & Eb & Et & _ & ->). simpl. lia.
+  - (* call1 *) change (compg tco (QCall1 f a) ce tp cur pc nv sn = Some (cq, nv', sn')) in Hc.
+    destruct (comp_call1_inv _ _ _ _ _ _ _ _ _ _ _ Hc) as (_ & _ & cb & nb & Eb & _ & ->). simpl. lia.
 Qed.
 End CF.
 Arguments comp_mono {tco} q ce {tp}.
